@@ -150,7 +150,10 @@ pub fn gen_plan(seed: u64, p: &Profile) -> Plan {
             }
         } else if s.chance(1, 4) {
             // large balances with small amounts: values beyond 2^32 / near 2^63 in every stage
-            (*s.pick(&[1u64 << 32, (1 << 32) + 7, 1 << 40, 1 << 62, (1 << 63) - 1000]) + s.below(1000), *s.pick(&[0u64, 1 << 33, 1 << 50, 900]) + s.below(100))
+            let c = *s.pick(&[1u64 << 32, (1 << 32) + 7, 1 << 40, 1 << 62, (1 << 63) - 1000]) + s.below(1000);
+            // sometimes within a few units of the top, so that small refunds overflow the range
+            let c = if s.chance(1, 3) { i64::MAX as u64 - s.below(16) } else { c };
+            (c, *s.pick(&[0u64, 1 << 33, 1 << 50, 900]) + s.below(100))
         } else {
             (s.below(5000), s.below(500))
         };
